@@ -43,6 +43,21 @@
 (*   DevMarkSeenBeforeVerify      cache entry made before verification     *)
 (*   DevCacheForgetsInsideWindow  TTL expiry of a still verifiable command *)
 (*   DevSizeEviction              size limit evicts such an entry          *)
+(*   DevPendingBeforeVerify       pending wake stored before verification  *)
+(*   DevRelayUnverified           the signing key reaches the flooder only *)
+(*                                when sleep mode is enabled: a relay      *)
+(*                                accepts and forwards anything            *)
+(*   DevCleanupLosesConcurrentInsert  cleanup rebuilds the cache in two    *)
+(*                                critical sections; a command handled in  *)
+(*                                between is inserted into the old map     *)
+(*                                                                         *)
+(* Configuration dimensions chosen at Init: key (signing public key        *)
+(* configured) and sleepon (sleep mode enabled: without it the agent has   *)
+(* no sleep manager, its sleep state never changes, but it still verifies, *)
+(* deduplicates and forwards commands - a relay).                          *)
+(* SplitCleanup: cleanup as two steps CleanupScan / CleanupSwap, to state  *)
+(* what its atomicity is needed for: in the ideal design no command is     *)
+(* handled between them (one critical section under sleepCmdMu).           *)
 (*                                                                         *)
 (* Instances (checks/_sleepcmd.py generates MC module + cfg; a runnable    *)
 (* sample is MCSleepCmd.tla / MCSleepCmd.cfg):                             *)
@@ -66,29 +81,36 @@ CONSTANTS MaxClock,   \* the clock runs 0..MaxClock
           ForgedIds,  \* further ids, used by forged frames only
           LocalIds,   \* ids of commands the operator enters at this very agent (subset of genuine ids)
           KeyModes,   \* subset of BOOLEAN: is a signing public key configured? (chosen at Init)
+          SleepModes, \* subset of BOOLEAN: is sleep mode enabled on the agent? (chosen at Init)
           Paths,      \* subset of {"sleep","wake","qsleep","qwake"}: arrival paths of the instance
           Peers,      \* connected peers (senders and forwarding targets)
           NewPeers,   \* peers that may connect later (pending-wake forwarding)
           Maintenance,\* TRUE: cleanup() is a step of the instance (FALSE where the binding cannot call it: whole agents)
+          SplitCleanup,\* TRUE: cleanup() as CleanupScan + CleanupSwap (concurrency with Receive), FALSE: one atomic step
           Dev,        \* enabled deviations
           OneDev,     \* TRUE: a behaviour stops after its first deviation step (relation used to classify mismatches)
           Emit        \* TRUE: print every transition as JSON
 
-DevNames == {"DevQueuedPathUnverified", "DevMarkSeenBeforeVerify", "DevCacheForgetsInsideWindow", "DevSizeEviction"}
+DevNames == {"DevQueuedPathUnverified", "DevMarkSeenBeforeVerify", "DevCacheForgetsInsideWindow", "DevSizeEviction",
+             "DevPendingBeforeVerify", "DevCleanupLosesConcurrentInsert", "DevRelayUnverified"}
 AllPaths == {"sleep", "wake", "qsleep", "qwake"}
 GenuineIds == {g.id : g \in Genuine}
 AllIds == GenuineIds \cup ForgedIds
 GTs(id) == (CHOOSE g \in Genuine : g.id = id).ts
 
-ASSUME /\ Dev \subseteq DevNames /\ Paths \subseteq AllPaths /\ KeyModes \subseteq BOOLEAN
+ASSUME /\ Dev \subseteq DevNames /\ Paths \subseteq AllPaths /\ KeyModes \subseteq BOOLEAN /\ SleepModes \subseteq BOOLEAN
        /\ LocalIds \subseteq GenuineIds /\ GenuineIds \cap ForgedIds = {}
        /\ Cardinality(GenuineIds) = Cardinality(Genuine)
 
 VARIABLES key,      \* signing public key configured?  (never changes)
+          sleepon,  \* sleep mode enabled?  (never changes)
+          scanning, \* SplitCleanup: a cleanup has scanned the cache and not yet swapped
+          snap,     \* SplitCleanup: the cache the scan kept
           clock,
           cache,    \* [AllIds -> [at, from]]   at = -1: no entry
           st,       \* "awake" | "sleeping"   sleep state of the agent
-          pend,     \* [id, at] pending wake command kept for new peers (id = "none": nothing stored)
+          pend,     \* [id, at, ok] pending wake command kept for new peers (id = "none": nothing stored);
+                    \* ok: it was authentic when stored
           acted,    \* ghost [AllIds -> 0..2]: times a VALID command with this id was acted on
           bad,      \* ghost 0..1: a command that is not valid was acted on / forwarded
           poisoned, \* ghost: ids whose cache entry was created by a frame that failed verification
@@ -97,12 +119,14 @@ VARIABLES key,      \* signing public key configured?  (never changes)
           last      \* observation of the last step (hidden by VIEW)
 
 ghosts == <<acted, bad, poisoned, suppressed, devsteps>>
-vars == <<key, clock, cache, st, pend, ghosts, last>>
-view == <<key, clock, cache, st, pend, ghosts>>
-viewCore == <<key, clock, cache, st, pend, devsteps>>
+conf == <<key, sleepon>>
+cl == <<scanning, snap>>
+vars == <<conf, cl, clock, cache, st, pend, ghosts, last>>
+view == <<conf, cl, clock, cache, st, pend, ghosts>>
+viewCore == <<conf, cl, clock, cache, st, pend, devsteps>>
 
 NoEntry == [at |-> -1, from |-> "none"]
-NoPend == [id |-> "none", at |-> -1]
+NoPend == [id |-> "none", at |-> -1, ok |-> TRUE]
 TrackPend == NewPeers # {}   \* instances without new peers do not track the pending wake
 Present(id) == cache[id].at >= 0
 Size(c) == Cardinality({i \in AllIds : c[i].at >= 0})
@@ -119,8 +143,11 @@ StillValid(id) == key /\ id \in GenuineIds /\ clock <= GTs(id) + W
 
 Init ==
   /\ key \in KeyModes
+  /\ sleepon \in SleepModes
+  /\ scanning = FALSE
   /\ clock = 0
   /\ cache = [i \in AllIds |-> NoEntry]
+  /\ snap = [i \in AllIds |-> NoEntry]
   /\ st = "awake"
   /\ pend = NoPend
   /\ acted = [i \in AllIds |-> 0]
@@ -135,12 +162,13 @@ Obs(path, from, c, loop, res, fwd) ==
    res |-> res, fwd |-> fwd]
 
 \* bookkeeping of an acceptance (ghosts + agent state + pending wake)
+Stored(c) == [id |-> c.id, at |-> clock, ok |-> Authentic(c)]
 Act(path, c) ==
-  /\ st' = Effect(path)
+  /\ st' = IF sleepon THEN Effect(path) ELSE st      \* no sleep manager: the command is only forwarded
   /\ IF ~key THEN UNCHANGED <<acted, bad>>
      ELSE IF Authentic(c) THEN acted' = [acted EXCEPT ![c.id] = Min(@ + 1, 2)] /\ bad' = bad
                           ELSE acted' = acted /\ bad' = 1
-  /\ pend' = IF IsSleep(path) \/ ~TrackPend THEN pend ELSE [id |-> c.id, at |-> clock]
+  /\ pend' = IF IsSleep(path) \/ ~TrackPend THEN pend ELSE Stored(c)
 
 Refresh(from, id) == [cache EXCEPT ![id].at = IF cache[id].from # from THEN clock ELSE @]
 Insert(from, id) == [cache EXCEPT ![id] = [at |-> clock, from |-> from]]
@@ -149,26 +177,40 @@ Insert(from, id) == [cache EXCEPT ![id] = [at |-> clock, from |-> from]]
 (* of a QUEUED_STATE frame, which the repaired agent hands to the same     *)
 (* flooder functions): verify, then test-and-set the seen cache, then the  *)
 (* SeenBy loop test, then forward to every other peer and act.             *)
-Receive(path, from, c, loop) ==
-  /\ IF ~Verified(c)
-       THEN /\ UNCHANGED <<cache, st, pend, acted, bad, suppressed>>
-            /\ last' = Obs(path, from, c, loop, "invalid", {})
+\* storeFirst: the pinned-style order of HandleWakeCommand in which the pending wake is (re)stored on arrival
+\* ver: the outcome of the verification the handler performs
+ReceiveCore(path, from, c, loop, storeFirst, dev, ver) ==
+  LET early == storeFirst /\ ~IsSleep(path) /\ TrackPend
+      O(res, fwd) == IF dev = "" THEN Obs(path, from, c, loop, res, fwd)
+                               ELSE Obs(path, from, c, loop, res, fwd) @@ [dev |-> dev] IN
+  /\ IF ~ver
+       THEN /\ UNCHANGED <<cache, st, acted, bad, suppressed>>
+            /\ pend' = IF early THEN Stored(c) ELSE pend
+            /\ last' = O("invalid", {})
        ELSE IF Present(c.id)
          THEN /\ cache' = Refresh(from, c.id)
-              /\ UNCHANGED <<st, pend, acted, bad>>
+              /\ UNCHANGED <<st, acted, bad>>
+              /\ pend' = IF early THEN Stored(c) ELSE pend
               /\ suppressed' = (suppressed \/ (key /\ Authentic(c) /\ c.id \in poisoned /\ acted[c.id] = 0))
-              /\ last' = Obs(path, from, c, loop, "dup", {})
+              /\ last' = O("dup", {})
          ELSE /\ cache' = Insert(from, c.id)
               /\ UNCHANGED suppressed
               /\ IF loop
-                   THEN UNCHANGED <<st, pend, acted, bad>> /\ last' = Obs(path, from, c, loop, "loop", {})
-                   ELSE Act(path, c) /\ last' = Obs(path, from, c, loop, "accept", Peers \ {from})
-  /\ UNCHANGED <<key, clock, poisoned, devsteps>>
+                   THEN /\ UNCHANGED <<st, acted, bad>> /\ pend' = IF early THEN Stored(c) ELSE pend
+                        /\ last' = O("loop", {})
+                   ELSE Act(path, c) /\ last' = O("accept", Peers \ {from})
+  /\ UNCHANGED <<conf, cl, clock, poisoned>>
+
+\* ideal: no command is handled while a cleanup is between its scan and its swap (one critical section)
+Receive(path, from, c, loop) ==
+  /\ ~scanning
+  /\ ReceiveCore(path, from, c, loop, FALSE, "", Verified(c))
+  /\ UNCHANGED devsteps
 
 Tick ==
   /\ clock < MaxClock
   /\ clock' = clock + 1
-  /\ UNCHANGED <<key, cache, st, pend, ghosts>>
+  /\ UNCHANGED <<conf, cl, cache, st, pend, ghosts>>
   /\ last' = [act |-> "Tick"]
 
 (* cleanupSleepCmdCache, first loop: drop entries older than the TTL --    *)
@@ -195,31 +237,49 @@ CleanupWith(keepTTL, keepSize, dev) ==
     /\ dev # "" => cache' \notin IdealCleanupResults   \* a deviation step is one the ideal design cannot take
     /\ poisoned' = {i \in poisoned : cache'[i].at >= 0}
     /\ devsteps' = IF dev # "" /\ OneDev THEN 1 ELSE devsteps
-    /\ UNCHANGED <<key, clock, st, pend, acted, bad, suppressed>>
+    /\ UNCHANGED <<conf, cl, clock, st, pend, acted, bad, suppressed>>
     /\ last' = IF dev = "" THEN [act |-> "Cleanup"] ELSE [act |-> "Cleanup", dev |-> dev]
 
-Cleanup == CleanupWith(TRUE, TRUE, "")
+Cleanup == ~SplitCleanup /\ CleanupWith(TRUE, TRUE, "")
+
+(* cleanup() as two steps: the scan decides what is kept (first loop), the *)
+(* swap installs the kept map and applies the size limit (second loop).    *)
+CleanupScan ==
+  /\ SplitCleanup /\ ~scanning
+  /\ scanning' = TRUE /\ snap' = CleanupExpired(cache, TRUE)
+  /\ UNCHANGED <<conf, clock, cache, st, pend, ghosts>>
+  /\ last' = [act |-> "CleanupScan"]
+CleanupSwap ==
+  /\ SplitCleanup /\ scanning
+  /\ \E V \in Victims(snap, TRUE) : cache' = EvictBySize(snap, V)
+  /\ scanning' = FALSE /\ snap' = [i \in AllIds |-> NoEntry]
+  /\ poisoned' = {i \in poisoned : cache'[i].at >= 0}
+  /\ UNCHANGED <<conf, clock, st, pend, acted, bad, suppressed, devsteps>>
+  /\ last' = [act |-> "CleanupSwap"]
 
 (* A new peer connects: a pending wake command not older than the TTL is   *)
 (* forwarded to it (OnPeerConnected); an older one is dropped.             *)
 PeerConnected(p) ==
   /\ IF pend.id = "none"
-       THEN UNCHANGED pend /\ last' = [act |-> "PeerConnected", p |-> p, res |-> "none", fwd |-> {}]
+       THEN UNCHANGED <<pend, bad>> /\ last' = [act |-> "PeerConnected", p |-> p, res |-> "none", fwd |-> {}]
        ELSE IF clock - pend.at > TTL
-         THEN pend' = NoPend /\ last' = [act |-> "PeerConnected", p |-> p, res |-> "expired", fwd |-> {}]
-         ELSE UNCHANGED pend /\ last' = [act |-> "PeerConnected", p |-> p, res |-> pend.id, fwd |-> {p}]
-  /\ UNCHANGED <<key, clock, cache, st, ghosts>>
+         THEN pend' = NoPend /\ UNCHANGED bad /\ last' = [act |-> "PeerConnected", p |-> p, res |-> "expired", fwd |-> {}]
+         ELSE /\ UNCHANGED pend
+              /\ bad' = IF key /\ ~pend.ok THEN 1 ELSE bad       \* a command that is not authentic is forwarded
+              /\ last' = [act |-> "PeerConnected", p |-> p, res |-> pend.id, ok |-> pend.ok, fwd |-> {p}]
+  /\ UNCHANGED <<conf, cl, clock, cache, st, acted, poisoned, suppressed, devsteps>>
 
 (* The operator enters a (signed) command at this agent: FloodSleepCommand *)
 (* / FloodWakeCommand mark it seen (from = the agent itself) and send it   *)
 (* to every peer; when it comes back from the mesh it is a duplicate.      *)
 LocalIssue(kind, id) ==
+  /\ sleepon /\ ~scanning
   /\ id \in LocalIds /\ InWin(GTs(id)) /\ ~Present(id)
   /\ cache' = [cache EXCEPT ![id] = [at |-> clock, from |-> "self"]]
   /\ st' = IF kind = "sleep" THEN "sleeping" ELSE "awake"
-  /\ pend' = IF kind = "sleep" \/ ~TrackPend THEN pend ELSE [id |-> id, at |-> clock]
+  /\ pend' = IF kind = "sleep" \/ ~TrackPend THEN pend ELSE [id |-> id, at |-> clock, ok |-> TRUE]
   /\ acted' = IF key THEN [acted EXCEPT ![id] = Min(@ + 1, 2)] ELSE acted
-  /\ UNCHANGED <<key, clock, bad, poisoned, suppressed, devsteps>>
+  /\ UNCHANGED <<conf, cl, clock, bad, poisoned, suppressed, devsteps>>
   /\ last' = [act |-> "LocalIssue", kind |-> kind, id |-> id, ts |-> GTs(id), fwd |-> Peers]
 
 (* ---- deviations ---------------------------------------------------------*)
@@ -227,13 +287,13 @@ LocalIssue(kind, id) ==
 (* straight to the sleep manager: no verification, no cache, no forward.   *)
 DevQueuedPathUnverified(path, from, c, loop) ==
   /\ "DevQueuedPathUnverified" \in Dev
-  /\ path \in {"qsleep", "qwake"}
+  /\ path \in {"qsleep", "qwake"} /\ sleepon /\ ~scanning
   /\ st' = Effect(path)
   /\ IF ~key THEN UNCHANGED <<acted, bad>>
      ELSE IF Authentic(c) THEN acted' = [acted EXCEPT ![c.id] = Min(@ + 1, 2)] /\ bad' = bad
                           ELSE acted' = acted /\ bad' = 1
   /\ devsteps' = IF OneDev THEN 1 ELSE devsteps
-  /\ UNCHANGED <<key, clock, cache, pend, poisoned, suppressed>>
+  /\ UNCHANGED <<conf, cl, clock, cache, pend, poisoned, suppressed>>
   /\ last' = Obs(path, from, c, loop, "accept", {}) @@ [dev |-> "DevQueuedPathUnverified"]
 
 (* pinned HandleSleepCommand / HandleWakeCommand: markSleepCmdSeen runs    *)
@@ -241,13 +301,41 @@ DevQueuedPathUnverified(path, from, c, loop) ==
 (* (or refreshes) the cache entry of its (origin, id).                     *)
 DevMarkSeenBeforeVerify(path, from, c, loop) ==
   /\ "DevMarkSeenBeforeVerify" \in Dev
-  /\ ~Verified(c)
+  /\ ~Verified(c) /\ ~scanning
   /\ IF Present(c.id) THEN cache' = Refresh(from, c.id) /\ poisoned' = poisoned
                       ELSE cache' = Insert(from, c.id) /\ poisoned' = poisoned \cup {c.id}
   /\ cache' # cache
   /\ devsteps' = IF OneDev THEN 1 ELSE devsteps
-  /\ UNCHANGED <<key, clock, st, pend, acted, bad, suppressed>>
+  /\ UNCHANGED <<conf, cl, clock, st, pend, acted, bad, suppressed>>
   /\ last' = Obs(path, from, c, loop, "invalid", {}) @@ [dev |-> "DevMarkSeenBeforeVerify"]
+
+(* HandleWakeCommand stores the arriving command as pending wake BEFORE     *)
+(* verification / deduplication: a frame that is then rejected stays behind *)
+(* and is forwarded to the next peer that connects.                         *)
+DevPendingBeforeVerify(path, from, c, loop) ==
+  /\ "DevPendingBeforeVerify" \in Dev
+  /\ ~IsSleep(path) /\ TrackPend /\ ~scanning
+  /\ ReceiveCore(path, from, c, loop, TRUE, "DevPendingBeforeVerify", Verified(c))
+  /\ pend' # (IF Verified(c) /\ ~Present(c.id) /\ ~loop THEN Stored(c) ELSE pend)   \* differs from the ideal step
+  /\ devsteps' = IF OneDev THEN 1 ELSE devsteps
+
+(* cleanup() rebuilt in two critical sections (scan under the read lock,   *)
+(* swap under the write lock): a command handled in between is inserted    *)
+(* into the map that the swap throws away.                                 *)
+DevCleanupLosesConcurrentInsert(path, from, c, loop) ==
+  /\ "DevCleanupLosesConcurrentInsert" \in Dev
+  /\ scanning
+  /\ ReceiveCore(path, from, c, loop, FALSE, "DevCleanupLosesConcurrentInsert", Verified(c))
+  /\ devsteps' = IF OneDev THEN 1 ELSE devsteps
+
+(* agent.initComponents hands the signing key to the flooder only when     *)
+(* sleep mode is enabled: an agent without sleep mode (a relay) runs its   *)
+(* flooder without a key and accepts, remembers and forwards every frame.  *)
+DevRelayUnverified(path, from, c, loop) ==
+  /\ "DevRelayUnverified" \in Dev
+  /\ key /\ ~sleepon /\ ~scanning /\ ~Authentic(c)
+  /\ ReceiveCore(path, from, c, loop, FALSE, "DevRelayUnverified", TRUE)
+  /\ devsteps' = IF OneDev THEN 1 ELSE devsteps
 
 (* pinned cleanupSleepCmdCache: the TTL alone decides (first loop)         *)
 DevCacheForgetsInsideWindow ==
@@ -277,8 +365,12 @@ Step ==
         \/ Receive(path, from, d.c, d.loop)
         \/ DevQueuedPathUnverified(path, from, d.c, d.loop)
         \/ DevMarkSeenBeforeVerify(path, from, d.c, d.loop)
+        \/ DevPendingBeforeVerify(path, from, d.c, d.loop)
+        \/ DevCleanupLosesConcurrentInsert(path, from, d.c, d.loop)
+        \/ DevRelayUnverified(path, from, d.c, d.loop)
   \/ Tick
-  \/ Maintenance /\ (Cleanup \/ DevCacheForgetsInsideWindow \/ DevSizeEviction \/ DevCleanupPinned)
+  \/ Maintenance /\ (Cleanup \/ CleanupScan \/ CleanupSwap)
+  \/ Maintenance /\ ~SplitCleanup /\ (DevCacheForgetsInsideWindow \/ DevSizeEviction \/ DevCleanupPinned)
   \/ \E p \in NewPeers : PeerConnected(p)
   \/ \E kind \in {"sleep", "wake"}, id \in LocalIds : LocalIssue(kind, id)
 
@@ -288,7 +380,8 @@ Spec == Init /\ [][Next]_vars
 
 (* ---- properties ----------------------------------------------------------*)
 TypeOK ==
-  /\ key \in BOOLEAN /\ clock \in 0..MaxClock /\ st \in {"awake", "sleeping"}
+  /\ key \in BOOLEAN /\ sleepon \in BOOLEAN /\ scanning \in BOOLEAN /\ clock \in 0..MaxClock /\ st \in {"awake", "sleeping"}
+  /\ (~sleepon => st = "awake") /\ (scanning => SplitCleanup)
   /\ \A i \in AllIds : cache[i].at \in -1..MaxClock
   /\ bad \in 0..1 /\ \A i \in AllIds : acted[i] \in 0..2
   /\ pend.id \in AllIds \cup {"none"} /\ poisoned \subseteq AllIds /\ suppressed \in BOOLEAN /\ devsteps \in 0..1
@@ -301,7 +394,7 @@ OnlyAuthenticEffects ==
   [][(key /\ last'.act = "Receive" /\ (st' # st \/ last'.fwd # {}))
         => (last'.sig = "valid" /\ last'.ts - clock <= W /\ clock - last'.ts <= W)]_vars
 \* ... and the pending wake kept for new peers is a verified one
-PendingAuthentic == (key /\ pend.id # "none") => (pend.id \in GenuineIds /\ acted[pend.id] >= 1)
+PendingAuthentic == (key /\ pend.id # "none") => (pend.ok /\ pend.id \in GenuineIds /\ acted[pend.id] >= 1)
 
 \* C29: every valid command is acted on at most once
 AtMostOnce == key => \A i \in AllIds : acted[i] <= 1
@@ -313,10 +406,13 @@ NoPoisoning == key => poisoned = {}
 NeverSuppressed == key => ~suppressed
 RejectedChangesNothing ==
   [][(key /\ last'.act = "Receive" /\ last'.res = "invalid") => UNCHANGED <<cache, st, pend>>]_vars
+\* sleep mode off: the sleep state never changes (the agent only verifies, deduplicates and forwards)
+RelayNeverSleeps == ~sleepon => st = "awake"
 
 EmitEdge ==
-  Emit => PrintT("EDGE " \o ToJson([s |-> [key |-> key, clock |-> clock, cache |-> cache, st |-> st, pend |-> pend],
+  Emit => PrintT("EDGE " \o ToJson([s |-> [key |-> key, sleepon |-> sleepon, clock |-> clock, cache |-> cache, st |-> st,
+                                           pend |-> pend],
                                      a |-> last',
-                                     t |-> [key |-> key', clock |-> clock', cache |-> cache', st |-> st',
-                                            pend |-> pend']]))
+                                     t |-> [key |-> key', sleepon |-> sleepon', clock |-> clock', cache |-> cache',
+                                            st |-> st', pend |-> pend']]))
 =============================================================================
